@@ -232,6 +232,29 @@ def run_blob(c, out):
     if ok:
         v = ncc(back, vol)
         out.check(v > 0.99, "blob:inverse_rotation_does_not_restore", f"NCC {v:.5f}")
+    # the particle side of the same convention: a particle with these angles carries the reference offset of the blob
+    # to the place where rotating the reference map by the same angles put the blob
+    import pandas as pd
+    from cryocat import cryomotl
+
+    off = com(vol) - ctr
+    rows = np.zeros((2, 20))
+    C_ = oracle.MOTL_COLUMNS
+    rows[:, C_.index("subtomo_id")] = [1, 2]
+    rows[:, C_.index("tomo_id")] = 1
+    rows[0, [C_.index("x"), C_.index("y"), C_.index("z")]] = [100.0, 120.0, 80.0]
+    rows[1, [C_.index("x"), C_.index("y"), C_.index("z")]] = [10.0, 20.0, 30.0]
+    rows[0, [C_.index("phi"), C_.index("theta"), C_.index("psi")]] = list(c["angles"])
+    ok, m_ = call(out, "Motl", lambda: cryomotl.Motl(pd.DataFrame(rows, columns=C_)))
+    if ok:
+        before = m_.get_coordinates().copy()
+        ok, _ = call(out, "shift_positions", lambda: m_.shift_positions(off.tolist()))
+        if ok:
+            moved = np.asarray(m_.get_coordinates(), float) - before
+            if out.check(moved.shape == (2, 3), "convention:get_coordinates_shape", moved.shape):
+                out.check(np.abs(moved[0] - R @ off).max() <= 1e-9 * max(1.0, np.abs(off).max()), "convention:particle_offset_not_R_times_reference_offset", lambda: f"{moved[0].tolist()} vs {(R @ off).tolist()}")
+                out.check(np.abs(moved[0] - (got - ctr)).max() <= 0.06, "convention:particle_and_map_rotation_disagree", lambda: f"particle moved by {moved[0].round(3).tolist()}, blob by {(got - ctr).round(3).tolist()}")
+                out.check(np.abs(moved[1] - off).max() <= 1e-9 * max(1.0, np.abs(off).max()), "convention:unrotated_particle_offset_changed", lambda: f"{moved[1].tolist()} vs {off.tolist()}")
 
 
 # ---------------------------------------------------------------------------------------------- (c) windows
